@@ -144,7 +144,7 @@ func TestVX_C09_Glue(t *testing.T) {
 	if vx.ColdChild(coldEntries) {
 		return
 	}
-	r := vx.Begin("C09", "glue-trace", "Go glue of the accelerated path under the trace monitor (every basic block, short-circuit operand and index / slice-bound value of package sm4's Go sources): groups = NewCipher+Encrypt+Decrypt; NewGCM+Seal, Open of an authentic message and Open of a forged one for (plaintext, aad, nonce, tag) lengths in {0,1,16,17,64,300}x{0,5,16}x{12,16}x{16,12}; within a group the key ranges over {standard, zero, ones, seeded x4, keys solved for rk[i]=0 / 0xffffffff at every i and zero / all-one windows} and the data over {zero, ones, seeded} plaintext, nonce and aad; all traces of a group must be identical; plus the first cipher of a process (one fresh process per key: construction, one block, one Seal) - the traces of all keys must be equal")
+	r := vx.Begin("C09", "glue-trace", "Go glue of the accelerated path under the trace monitor (every basic block, short-circuit operand and index / slice-bound value of package sm4's Go sources): groups = NewCipher+Encrypt+Decrypt; Encrypt/Decrypt with the destination shifted by -15..15 bytes against the source; the crypto/cipher mode constructors (CTR, CBC, CFB, OFB, NewGCM, NewGCMWithNonceSize) on the Block; NewGCM+Seal, Open of an authentic message and Open of a forged one for (plaintext, aad, nonce, tag) lengths in {0,1,16,17,64,300}x{0,5,16}x{12,16}x{16,12}; within a group the key ranges over {standard, zero, ones, seeded x4, keys solved for rk[i]=0 / 0xffffffff at every i and zero / all-one windows} and the data over {zero, ones, seeded} plaintext, nonce and aad; all traces of a group must be identical; plus the first cipher of a process (one fresh process per key: construction, one block, one Seal) - the traces of all keys must be equal")
 	defer r.End()
 	selfCheck()
 	if !glueLoad() {
@@ -305,6 +305,67 @@ func TestVX_C09_Glue(t *testing.T) {
 			}})
 		}
 		group("block", runs)
+	}
+	// ---- block operations whose destination is the source shifted by 1..15 bytes in either direction (whatever the
+	// library does with such a call - the kernels, a panic - it must be the same for every key and every data pattern)
+	for _, shift := range []int{-15, -8, -3, -1, 1, 2, 7, 8, 9, 15} {
+		var runs []glueRun
+		kb, w := make([]byte, 16), make([]byte, 64)
+		src, dst := w[24:40], w[24+shift:40+shift]
+		mk := func(k, in []byte) func() {
+			return func() {
+				copy(kb, k)
+				copy(src, in)
+				b, _ := sm4.NewCipher(kb)
+				vx.Try(func() { b.Encrypt(dst, src) })
+				copy(src, in)
+				vx.Try(func() { b.Decrypt(dst, src) })
+			}
+		}
+		for _, kn := range knames {
+			runs = append(runs, glueRun{"key:" + kn, mk(keys[kn], make([]byte, 16))})
+		}
+		for _, dk := range []string{"zero", "ones", "seeded"} {
+			runs = append(runs, glueRun{"data:" + dk, mk(keys["std"], pat(dk, "blk", 16))})
+		}
+		group(fmt.Sprintf("block-shifted-dst:%+d", shift), runs)
+	}
+	// ---- every way the standard library drives a Block: the mode constructors of crypto/cipher look for optional methods
+	// on the Block (and find those of embedded types too) before they fall back to Encrypt / Decrypt
+	{
+		var runs []glueRun
+		kb, iv, in, out := make([]byte, 16), make([]byte, 16), make([]byte, 96), make([]byte, 96+16)
+		mk := func(k, data []byte) func() {
+			return func() {
+				copy(kb, k)
+				copy(in, data)
+				copy(iv, data)
+				b, _ := sm4.NewCipher(kb)
+				vx.Try(func() { cipher.NewCTR(b, iv).XORKeyStream(out[:80], in[:80]) })
+				vx.Try(func() { cipher.NewCBCEncrypter(b, iv).CryptBlocks(out[:64], in[:64]) })
+				vx.Try(func() { cipher.NewCBCDecrypter(b, iv).CryptBlocks(out[:64], in[:64]) })
+				vx.Try(func() { cipher.NewCFBEncrypter(b, iv).XORKeyStream(out[:37], in[:37]) })
+				vx.Try(func() { cipher.NewCFBDecrypter(b, iv).XORKeyStream(out[:37], in[:37]) })
+				vx.Try(func() { cipher.NewOFB(b, iv).XORKeyStream(out[:37], in[:37]) })
+				vx.Try(func() {
+					if a, err := cipher.NewGCM(b); err == nil {
+						a.Seal(out[:0], iv[:12], in[:33], in[40:45])
+					}
+				})
+				vx.Try(func() {
+					if a, err := cipher.NewGCMWithNonceSize(b, 16); err == nil {
+						a.Seal(out[:0], iv, in[:33], nil)
+					}
+				})
+			}
+		}
+		for _, kn := range knames {
+			runs = append(runs, glueRun{"key:" + kn, mk(keys[kn], make([]byte, 96))})
+		}
+		for _, dk := range []string{"zero", "ones", "seeded"} {
+			runs = append(runs, glueRun{"data:" + dk, mk(keys["std"], pat(dk, "modes", 96))})
+		}
+		group("stdlib-modes", runs)
 	}
 	// ---- AEAD
 	for _, pl := range []int{0, 1, 16, 17, 64, 300} {
